@@ -466,8 +466,8 @@ def command_lines(chk):
     d = chk.scratch.sub("cli")
     spec = os.path.join(d, "c.l")
     util.write(spec, "%option noyywrap\n%%\na+ ;\n.|\\n ;\n%%\n")
-    jobs = [("missing-arg", [o]) for o in ARG_OPTS] + [("missing-arg-after-file", [spec, o]) for o in
-                                                       ARG_OPTS[:6]] + [("odd", o) for o in ODD_CLI]
+    jobs = [("missing-arg", [o]) for o in ARG_OPTS] + [("missing-arg", ["-v", o]) for o in ARG_OPTS[:6]] + \
+        [("missing-arg-after-file", [spec, o]) for o in ARG_OPTS[:6]] + [("odd", o) for o in ODD_CLI]
 
     def one(job):
         kind, words = job
@@ -476,7 +476,7 @@ def command_lines(chk):
         if kind == "missing-arg-after-file":
             cmd = [flex.bin] + words
         elif kind == "missing-arg":
-            cmd = [flex.bin, spec] + words          # the option is the last word
+            cmd = [flex.bin] + words                # the option is the last word; input on stdin
         else:
             cmd = [flex.bin] + words + [spec]
         with open(spec, "rb") as fin:
